@@ -479,11 +479,13 @@ pub struct GenCfg {
     pub allow_nested: bool,
     pub allow_effects: bool,
     pub allow_seq: bool,
+    /// `^~` at arbitrary positions (may not terminate: only for checks that bound steps / do not run)
+    pub allow_reapply: bool,
 }
 
 impl Default for GenCfg {
     fn default() -> Self {
-        GenCfg { idents: vec!["x".into(), "y".into(), "zed".into(), "w".into()], allow_nested: true, allow_effects: true, allow_seq: true }
+        GenCfg { idents: vec!["x".into(), "y".into(), "zed".into(), "w".into()], allow_nested: true, allow_effects: true, allow_seq: true, allow_reapply: false }
     }
 }
 
@@ -515,6 +517,12 @@ pub fn rand_expr(r: &mut Rng, depth: usize, cfg: &GenCfg) -> E {
         return a;
     }
     let sub = |r: &mut Rng| rand_expr(r, depth - 1, cfg);
+    if cfg.allow_reapply && r.chance(1, 12) {
+        let e = E::Reapply(sub(r).b());
+        if well_formed(&e) {
+            return e;
+        }
+    }
     let e = match r.below(22) {
         0..=7 => {
             let b = match r.below(10) {
@@ -581,7 +589,7 @@ pub fn rand_expr(r: &mut Rng, depth: usize, cfg: &GenCfg) -> E {
 }
 
 fn clone_cfg(c: &GenCfg) -> GenCfg {
-    GenCfg { idents: c.idents.clone(), allow_nested: c.allow_nested, allow_effects: c.allow_effects, allow_seq: c.allow_seq }
+    GenCfg { idents: c.idents.clone(), allow_nested: c.allow_nested, allow_effects: c.allow_effects, allow_seq: c.allow_seq, allow_reapply: c.allow_reapply }
 }
 
 pub fn rand_program(r: &mut Rng, depth: usize, cfg: &GenCfg) -> E {
